@@ -246,6 +246,67 @@ def r4(ctx):
     ctx.check("C08.R4", okk, key(fs, "accept-peer"), site(fs), "SyncWorker.accept does not pass accept()'s address to handle()", "handle(listener, client, addr)")
 
 
+INFO = "PROXY-INFO"
+
+
+def ppi_table(ctx, f, nreq):
+    """Evaluated: the parser of one connection yields `nreq` requests, the first with the PROXY line's info, the later
+    ones with none of their own (Request.__init__ resets it; the line is only sent once).  The handler is run on
+    that history -- the loop of the async worker, one call per request for the thread worker, whose connection object
+    outlives the calls -- and every request handed to handle_request must carry the info."""
+    repo = ctx.repo
+    g = f.cfg
+    from ..absint import Ref, HEAP
+    hreq = [c for c in walk_own(f.node) if isinstance(c, ast.Call) and (repo.call_target(f.module, f, c) or "").endswith(".handle_request")]
+    ctx.need(hreq, "C08.R5: no handle_request call in %s" % f.qualname)
+
+    def atom_of(e):
+        if isinstance(e, ast.Call) and repo.has_cls(repo.call_target(f.module, f, e) or "") and "Parser" in (repo.call_target(f.module, f, e) or ""):
+            return "PARSER"
+        return None
+    reqs = [Ref("request-%d" % (i + 1)) for i in range(nreq)]
+    heap = {("parser", "queue"): tuple(reqs), ("conn", "parser"): Ref("parser"), ("conn", "proxy_protocol_info"): {}, ("conn", "initialized"): True}
+    for i, r in enumerate(reqs):
+        heap[(r.name, "proxy_protocol_info")] = INFO if i == 0 else None
+
+    def make_probe(c):
+        def probe(ex, env):
+            for a in c.args:
+                v = ex.ev(a, env)
+                if isinstance(v, Ref) and v.name.startswith("request-"):
+                    inf = ex.ev(ast.Attribute(value=a, attr="proxy_protocol_info", ctx=ast.Load()), env)
+                    return (v.name, inf if isinstance(inf, (str, type(None))) else repr(inf))
+            return ("?", None)
+        return probe
+    probes = {nn.id: ("dispatch", make_probe(c)) for c in hreq for nn in nodes_with(f, c)}
+    seen = {}
+    heaps = [heap]
+    per_call = "conn" in f.params
+    for rnd in range(nreq if per_call else 1):
+        nxt = []
+        for h in heaps:
+            ex = Explorer(f, atom_of=atom_of, max_states=100000)
+            env = {HEAP: h, "PARSER": Ref("parser"), "self.cfg.keepalive": 2, "self.alive": True}
+            for pn in f.params[1:]:
+                env[ex.key_of(ast.Name(id=pn, ctx=ast.Load()))] = Ref(pn) if pn == "conn" else UNKNOWN
+            for o in ex.run(g.entry, env, probes=probes):
+                got = [v for (nm, v) in o.events if nm == "dispatch"]
+                for v in got:
+                    if v != "U":
+                        seen.setdefault(v[0], set()).add(v[1])
+                    else:
+                        seen.setdefault("?", set()).add("U")
+                if got and o.env.get(HEAP) not in nxt:
+                    nxt.append(o.env.get(HEAP))
+        heaps = nxt[:8]
+    for r in reqs:
+        infos = seen.get(r.name, set())
+        ctx.check("C08.R5", infos == {INFO}, key(f, "proxy-info-carry|" + r.name), site(f, hreq[0]),
+                  "on a PROXY connection serving %d requests, %s reaches handle_request with proxy_protocol_info %s instead of the info of the connection's PROXY line: "
+                  "later requests fall back to the proxy's own address (REMOTE_ADDR reverts)" % (nreq, r.name, sorted(map(str, infos)) or "never"),
+                  "PROXY info remembered across requests")
+
+
 def r5(ctx):
     repo = ctx.repo
     # does Parser.__next__ carry it for everyone?
@@ -270,31 +331,5 @@ def r5(ctx):
         if parser_carries:
             ctx.ok("C08.R5", site(f), "Parser.__next__ carries the PROXY info")
             continue
-        for c in multi:
-            st = f.module.enclosing(c, ast.Assign)
-            ctx.need(st is not None and isinstance(st.targets[0], ast.Name), "C08.R5: result of next(parser) not bound in %s" % q)
-            R = st.targets[0].id
-            scope = f.module.enclosing(c, (ast.While, ast.For)) or f.node
-            put = [x for x in ast.walk(scope) if isinstance(x, ast.Assign) and any(isinstance(t, ast.Attribute) and t.attr == "proxy_protocol_info" and isinstance(t.value, ast.Name) and t.value.id == R for t in x.targets)]
-            get = [x for x in ast.walk(scope) if isinstance(x, ast.Assign) and isinstance(x.value, ast.Attribute) and x.value.attr == "proxy_protocol_info" and isinstance(x.value.value, ast.Name) and x.value.value.id == R]
-
-            def outlives(e):
-                if isinstance(e, ast.Name):
-                    # loop-carried local: assigned outside the loop body as well
-                    if scope is f.node:
-                        return False        # a local of a function that serves one request per call dies with it
-                    return any(not any(a is scope for a in f.module.ancestors(s.ast)) for s in stores_to_name(f, e.id))
-                if isinstance(e, ast.Attribute):
-                    return isinstance(e.value, ast.Name) and (e.value.id in f.params or e.value.id == "self") and e.value.id != R
-                return False
-            okk = any(outlives(p.value) for p in put) and any(outlives(t) for x in get for t in x.targets)
-            hr = [nn for cc in walk_own(f.node) if isinstance(cc, ast.Call) and (repo.call_target(f.module, f, cc) or "").endswith(".handle_request") for nn in nodes_with(f, cc)]
-            if okk:
-                pn = [nn for p in put for nn in g.nodes_of(p)]
-                # on the path from next() to handle_request where the request has no info of its own, the carry store is passed
-                okk = all(g.path(x, [h], without_nodes=pn + [gn for ge in get for gn in g.nodes_of(ge)], follow_exc=False) is None for x in nodes_with(f, c) for h in hr)
-            ctx.check("C08.R5", okk, key(f, "proxy-info-carry"), site(f, c),
-                      "this handler serves several requests from one parser, but a later request's proxy_protocol_info is not restored from state that outlives a request: "
-                      "only the first request of a PROXY connection gets the declared client address, later ones fall back to the proxy's own address (REMOTE_ADDR reverts)",
-                      "PROXY info remembered across requests")
+        ppi_table(ctx, f, 3)
     ctx.floor("C08.R5", "multi-request handlers", n, 2)
